@@ -636,3 +636,84 @@ def u_norm(U):
 @unit('act_one.norm.stab', props=('C01', 'C16'))
 def u_norm_stab(U):
     _norm_unit(U, True)
+
+
+# ----------------------------------------------------------------------------------------------
+# act_two.accuracy (TT arguments): || Y1 - Y2 || / || Y2 || through the two stabilised norms, the two saturation values
+# and the documented sentinel -1 (C01, C11, C16)
+
+def _flt(x):
+    """The real number a float literal of the source denotes (exactly)."""
+    from fractions import Fraction
+    return z3.RealVal(str(Fraction(x)))
+
+
+def _accuracy_unit(U):
+    fn = U.func('act_two', 'accuracy')
+    AXA = T.axioms('shape', 'real', 'pow2r', 'pow2add')
+    st = U.state()
+    Y1, A1, d = S.tt_param(st, 'Y1', z3.Int('d'))
+    Y2, A2, _ = S.tt_param(st, 'Y2', d)
+    norms = []
+
+    def c_sub(ex, s, a, kw, node):
+        P, Q = s.deref(a[0]), s.deref(a[1])
+        if not (isinstance(P, VSeq) and isinstance(Q, VSeq) and P.tag == 'core' and Q.tag == 'core'):
+            raise M.ContractMismatch('accuracy(): sub is not called with two TT lists')
+        ex.oblige(s, 'call-pre', 'sub: two well-formed tensors of the same shape',
+                  z3.And(Q.n == P.n, T.wf(P.arr, P.n), T.wf(Q.arr, P.n), same_shape(P.arr, Q.arr, P.n)), node)
+        D = ex.fresh('Dsub', T.TT)
+        s.assume(T.wf(D, P.n))
+        s.ghost['sub'] = (P.arr, Q.arr, D)
+        return s.alloc(VSeq(D, P.n, M.mk_core, 'core'))
+
+    def c_norm(ex, s, a, kw, node):
+        # postcondition of norm(Y, use_stab=True) proved by unit act_one.norm.stab
+        Ys = s.deref(a[0])
+        stab = kw.get('use_stab', a[1] if len(a) > 1 else False)
+        if not (isinstance(Ys, VSeq) and Ys.tag == 'core') or stab is not True:
+            raise M.ContractMismatch('accuracy(): norm is not called as norm(<TT>, use_stab=True)')
+        ex.oblige(s, 'call-pre', 'norm: well-formed tensor', T.wf(Ys.arr, Ys.n), node)
+        z, h = ex.fresh_real('mant'), ex.fresh_real('halfexp')
+        sq = T.ent(T.schain(Ys.arr, Ys.arr, Ys.n - 1), 0, 0)
+        s.assume(z >= 0, z3.IsInt(2 * h), T.pow2r(h) > 0, z3.Implies(sq > 0, (z * T.pow2r(h)) * (z * T.pow2r(h)) == sq),
+                 z3.Implies(sq <= 0, z == 0))
+        norms.append((Ys.arr, z, h))
+        s.ghost.setdefault('norms', []).append((Ys.arr, z, h))
+        return VTuple([z, h])
+
+    ex = U.executor(fn, callees={'act_two.sub': c_sub, 'act_one.norm': c_norm}, axioms=AXA)
+    st.vars.update(Y1=Y1, Y2=Y2)
+    res = U.run(ex, st, pre=[T.wf(A1, d), T.wf(A2, d), same_shape(A1, A2, d)])
+    U.cover('precondition-satisfiable', U.pre, axioms=AXA)
+    for p, o in res:
+        if o.kind != 'return':
+            U.post('no-exception', p, False, axioms=AXA)
+            continue
+        ns = p.ghost.get('norms', [])
+        sub_ = p.ghost.get('sub')
+        ok = len(ns) == 2 and sub_ is not None and sub_[0] is A1 and sub_[1] is A2 and ns[0][0] is sub_[2] and ns[1][0] is A2
+        U.post('norm-of-the-difference-and-norm-of-the-second-argument', p, z3.BoolVal(ok))
+        if not ok or not M.is_num(o.value):
+            U.post('returns-a-number', p, z3.BoolVal(M.is_num(o.value)))
+            continue
+        (_, z1, p1), (_, z2, p2) = ns
+        ret = M.to_real(o.value)
+        n1, n2 = z1 * T.pow2r(p1), z2 * T.pow2r(p2)              # || Y1 - Y2 ||  and  || Y2 ||
+        near = z3.And(p1 - p2 <= 500, p1 - p2 >= -500)
+        absz2 = z3.If(z2 >= 0, z2, -z2)
+        inst = [z3.Implies(p1 == (p1 - p2) + p2, T.pow2r(p1) == T.pow2r(p1 - p2) * T.pow2r(p2)), T.pow2r(p1) > 0, T.pow2r(p2) > 0,
+                T.pow2r(p1 - p2) > 0]                                   # instances of 'pow2add' / 'pow2r'
+        hy = list(p.pc) + inst
+        U.post('saturates-at-1e299-when-the-exponents-differ-by-more-than-500', hy, z3.Implies(p1 - p2 > 500, ret == _flt(1e299)), qf=True)
+        U.post('zero-when-the-difference-is-smaller-by-more-than-2^500', hy, z3.Implies(p1 - p2 < -500, ret == 0), qf=True)
+        U.post('sentinel--1-when-the-reference-norm-mantissa-is-below-1e-100', hy,
+               z3.Implies(z3.And(near, absz2 < _flt(1e-100)), ret == -1), qf=True)
+        U.post('otherwise-result-times-norm(Y2)-is-norm(Y1-Y2)', hy,
+               z3.Implies(z3.And(near, absz2 >= _flt(1e-100)), z3.And(ret * n2 == n1, ret >= 0)), qf=True)
+        U.canary('canary-always-sentinel', p, ret == -1, axioms=AXA)
+
+
+@unit('act_two.accuracy', props=('C01', 'C11', 'C16'))
+def u_accuracy(U):
+    _accuracy_unit(U)
